@@ -1,6 +1,7 @@
 """Probe (C08, suspicious - NOT a violation of the C08 statement): AuthProvider.get_provider documents
 `:raises: UnknownAuthProvider if we cannot load the provider configured`, but the branch that raises it
-(`if provider_class is None`) is unreachable: `getattr(import_module(module), cls)` raises AttributeError for a missing
+(`if provider_class is None`) is reached only when the attribute EXISTS AND IS None (e.g. 'builtins.None' - audit a1);
+for every realistic mistake it is not: `getattr(import_module(module), cls)` raises AttributeError for a missing
 class, `import_module` raises ModuleNotFoundError for a missing module, and a name without a dot fails in
 `provider.rsplit(".", 1)` with ValueError.  Consequence: with a mistyped SERVICE_AUTH_PROVIDER every poll / snapshot upload
 raises one of those exceptions from GRPCService.metadata() (nothing is sent, nothing is cached - consistent with C08), and
@@ -22,7 +23,7 @@ class Cfg:
 
 
 seen = {}
-for name in ['nodot', 'deep.api.auth.Missing', 'no.such.module.X']:
+for name in ['nodot', 'deep.api.auth.Missing', 'no.such.module.X', 'builtins.None']:
     try:
         AuthProvider.get_provider(Cfg(name))
         seen[name] = 'no exception'
@@ -31,4 +32,5 @@ for name in ['nodot', 'deep.api.auth.Missing', 'no.such.module.X']:
     except Exception as e:  # noqa: B902
         seen[name] = type(e).__name__
     print(f'{name!r}: {seen[name]}')
-print('documented exception raised for any of them:', 'UnknownAuthProvider' in seen.values())
+print('documented exception raised only for builtins.None:',
+      [k for k, v in seen.items() if v == 'UnknownAuthProvider'] == ['builtins.None'])
